@@ -16,7 +16,7 @@ import (
 func init() {
 	register(&Spec{ID: "C17", Title: "Connection descriptions round-trip and never crash the parser", Run: runC17,
 		Meta: core.Meta{
-			Explanation: "Totality and rejection clauses of the property; round-trip equality is not decided. R17.1 (E-LEN): every slice/string index and slice expression in the functions reachable from dsn.Parse, ParseURI, ParseSimple, FormatURI, FormatSimple and FromEnv is proved in range from length facts (dominating len tests, `!= \"\"`, strings.Split/SplitN post-conditions, range/induction patterns) or is a listed reviewed invariant whose guard is re-checked; anything else is a violation (user-supplied DSN text can reach it). R17.2: in both parsers every setValue call is preceded by a comma-ok lookup of the key in the tag-to-field map whose !ok edge returns a non-nil error, and the looked-up field is the one set. R17.3 (E-CONST): the reflect.Kind case sets of setValue and of the formatters agree and setValue's default arm returns an error. R17.4: TagToField never registers the empty string as a key (every map update whose key comes from a split tag is guarded by key != \"\"), so an empty key cannot match a field. R17.5: in ParseURI the value used for a repeated query key is the LAST element of its value list (values[len(values)-1]). R17.7: ParseSimple only strips the surrounding quotes, so FormatSimple must put a string member between quotes unchanged: every use of the member's text in FormatSimple is fmt.Sprintf(\"%q\", s) or strconv.Quote(s) (identity on printable text without quotes and backslashes, non-ASCII included) or a plain concatenation with quote characters; %+q / QuoteToASCII and anything else is rejected. R17.8: tagToField never makes a registration conditional on the name being absent from the map (formatters use the json-only map, parsers the multiref map; both must resolve a repeated name to the last registered member). R17.6: every iteration of ParseSimple over a key=value part reaches the key lookup or returns an error (no shortcut, e.g. for empty values, skips the unknown-key test and the assignment).",
+			Explanation: "Totality and rejection clauses of the property; round-trip equality is not decided. R17.1 (E-LEN): every slice/string index and slice expression in the functions reachable from dsn.Parse, ParseURI, ParseSimple, FormatURI, FormatSimple and FromEnv is proved in range from length facts (dominating len tests, `!= \"\"`, strings.Split/SplitN post-conditions, range/induction patterns) or is a listed reviewed invariant whose guard is re-checked; anything else is a violation (user-supplied DSN text can reach it). R17.2: in both parsers every setValue call is preceded by a comma-ok lookup of the key in the tag-to-field map whose !ok edge returns a non-nil error, and the looked-up field is the one set. R17.3 (E-CONST): the reflect.Kind case sets of setValue and of the formatters agree and setValue's default arm returns an error. R17.4: TagToField never registers the empty string as a key (every map update whose key comes from a split tag is guarded by key != \"\"), so an empty key cannot match a field. R17.5: in ParseURI the value used for a repeated query key is the LAST element of its value list (values[len(values)-1]). R17.7: ParseSimple only strips the surrounding quotes, so FormatSimple must put a string member between quotes unchanged: every use of the member's text in FormatSimple is fmt.Sprintf(\"%q\", s) or strconv.Quote(s) (identity on printable text without quotes and backslashes, non-ASCII included) or a plain concatenation with quote characters; %+q / QuoteToASCII and anything else is rejected. R17.9: in FormatURI every branch condition that depends on a member's text is the comparison of that text itself with the empty string (the documented `not set` skip); a test on a transformed copy (trimmed, lower-cased, its length against another bound) leaves values out of the URI that ParseURI then cannot restore. R17.8: tagToField never makes a registration conditional on the name being absent from the map (formatters use the json-only map, parsers the multiref map; both must resolve a repeated name to the last registered member). R17.6: every iteration of ParseSimple over a key=value part reaches the key lookup or returns an error (no shortcut, e.g. for empty values, skips the unknown-key test and the assignment).",
 			NotDecided:  "Round-trip equality, alias precedence in the simple form and panics inside package reflect for targets that lack the four tags ParseURI hard-codes are not decided.",
 			Assumptions: []string{"strings.Split(s, sep) with a non-empty separator returns at least one element; strings.SplitN(s, sep, 2) one or two", "url.Values entries are non-empty slices (net/url only creates entries by appending)"},
 		}})
@@ -33,6 +33,8 @@ func runC17(r *core.Run) {
 	r.Rule("R17.7", "FormatSimple quotes strings with an idiom that ParseSimple's unquoting inverts over the documented alphabet", 1, false)
 	r.Rule("R17.8", "a name registered twice resolves the same way in every mode of the tag map (the last registration wins)", 1, false)
 	defer c17Quote(r)
+	r.Rule("R17.9", "FormatURI leaves a member out only when its text is empty", 1, false)
+	defer c17OmitOnlyEmpty(r)
 	defer c17TagLastWins(r)
 
 	var roots []*ssa.Function
@@ -527,4 +529,97 @@ func c17TagLastWins(r *core.Run) {
 		pos = fn.Pos()
 	}
 	r.Check(bad == "", "R17.8", "tagToField: registrations are unconditional", pos, fmt.Sprintf("%d map updates, none conditional on the map's content", n), bad)
+}
+
+// c17OmitOnlyEmpty: R17.9.
+func c17OmitOnlyEmpty(r *core.Run) {
+	p := r.Prog
+	fn := p.Func("dsn", "", "FormatURI")
+	// the member's text: the φ that merges reflect.Value.String() with the int/bool renderings
+	var texts []ssa.Value
+	for _, b := range fn.Blocks {
+		for _, in := range b.Instrs {
+			ph, ok := in.(*ssa.Phi)
+			if !ok {
+				continue
+			}
+			for _, e := range ph.Edges {
+				if c, ok := e.(*ssa.Call); ok && core.IsMethod(c, "reflect", "Value", "String") {
+					texts = append(texts, ph)
+				}
+			}
+		}
+	}
+	if len(texts) == 0 {
+		r.Unknown("R17.9", "FormatURI: omission test", fn.Pos(), "the merged text of a member was not found")
+		return
+	}
+	isText := func(v ssa.Value) bool {
+		for _, t := range texts {
+			if t == v {
+				return true
+			}
+		}
+		return false
+	}
+	var depends func(v ssa.Value, d int) bool
+	depends = func(v ssa.Value, d int) bool {
+		if d > 5 || v == nil {
+			return false
+		}
+		if isText(v) {
+			return true
+		}
+		switch x := v.(type) {
+		case *ssa.Call:
+			for _, a := range x.Call.Args {
+				if depends(a, d+1) {
+					return true
+				}
+			}
+		case *ssa.BinOp:
+			return depends(x.X, d+1) || depends(x.Y, d+1)
+		case *ssa.Convert:
+			return depends(x.X, d+1)
+		case *ssa.UnOp:
+			return depends(x.X, d+1)
+		case *ssa.Slice:
+			return depends(x.X, d+1)
+		case *ssa.Index:
+			return depends(x.X, d+1)
+		}
+		return false
+	}
+	n, bad := 0, ""
+	var pos token.Pos
+	for _, b := range fn.Blocks {
+		iff, ok := b.Instrs[len(b.Instrs)-1].(*ssa.If)
+		if !ok || !depends(iff.Cond, 0) {
+			continue
+		}
+		n++
+		okCond := false
+		if bo, isB := iff.Cond.(*ssa.BinOp); isB && (bo.Op == token.EQL || bo.Op == token.NEQ) {
+			if c, isC := bo.Y.(*ssa.Const); isC && c.Value != nil {
+				if isText(bo.X) && constString(c) == "" {
+					okCond = true
+				}
+				if lc, isL := bo.X.(*ssa.Call); isL {
+					if arg, isLen := isLenCall(lc); isLen && isText(arg) {
+						if k, isK := core.ConstInt64(bo.Y); isK && k == 0 {
+							okCond = true
+						}
+					}
+				}
+			}
+		}
+		if !okCond {
+			bad = "FormatURI branches on " + core.Expr(iff.Cond) + ", a test on the member's text other than `text == \"\"`: values that are not empty (e.g. a password of blanks) can be left out of the URI, and ParseURI(FormatURI(x)) no longer returns x"
+			pos = iff.Pos()
+		}
+	}
+	if pos == token.NoPos {
+		pos = fn.Pos()
+	}
+	r.Check(bad == "" && n > 0, "R17.9", "FormatURI: a member is omitted only when its text is empty", pos, fmt.Sprintf("%d branch(es) on the member's text, all `text == \"\"`", n), bad)
 }
